@@ -502,6 +502,103 @@ func main() {
 			return true
 		})
 	}
+	// package-level variables of package compiler that some function writes to (shared mutable state:
+	// concurrent compilations would interfere, sequential ones could depend on history)
+	{
+		pkgVars := map[string]bool{}
+		var parsed []*ast.File
+		for _, f := range files {
+			if strings.HasSuffix(f, "_test.go") || strings.Contains(f, "verif_hooks") {
+				continue
+			}
+			af := parse(f)
+			parsed = append(parsed, af)
+			for _, d := range af.Decls {
+				if gd, ok := d.(*ast.GenDecl); ok && gd.Tok == token.VAR {
+					for _, sp := range gd.Specs {
+						for _, nm := range sp.(*ast.ValueSpec).Names {
+							pkgVars[nm.Name] = true
+						}
+					}
+				}
+			}
+		}
+		root := func(e ast.Expr) string {
+			for {
+				switch x := e.(type) {
+				case *ast.Ident:
+					return x.Name
+				case *ast.IndexExpr:
+					e = x.X
+				case *ast.SelectorExpr:
+					e = x.X
+				case *ast.StarExpr:
+					e = x.X
+				case *ast.SliceExpr:
+					e = x.X
+				case *ast.ParenExpr:
+					e = x.X
+				default:
+					return ""
+				}
+			}
+		}
+		for _, af := range parsed {
+			for _, d := range af.Decls {
+				fd, ok := d.(*ast.FuncDecl)
+				if !ok || fd.Body == nil {
+					continue
+				}
+				// names declared locally (parameters, :=, var) shadow package-level names
+				local := map[string]bool{}
+				ast.Inspect(fd, func(n ast.Node) bool {
+					switch x := n.(type) {
+					case *ast.AssignStmt:
+						if x.Tok == token.DEFINE {
+							for _, l := range x.Lhs {
+								if id, ok := l.(*ast.Ident); ok {
+									local[id.Name] = true
+								}
+							}
+						}
+					case *ast.ValueSpec:
+						for _, nm := range x.Names {
+							local[nm.Name] = true
+						}
+					case *ast.Field:
+						for _, nm := range x.Names {
+							local[nm.Name] = true
+						}
+					case *ast.RangeStmt:
+						if id, ok := x.Key.(*ast.Ident); ok {
+							local[id.Name] = true
+						}
+						if id, ok := x.Value.(*ast.Ident); ok {
+							local[id.Name] = true
+						}
+					}
+					return true
+				})
+				ast.Inspect(fd.Body, func(n ast.Node) bool {
+					var lhs []ast.Expr
+					switch x := n.(type) {
+					case *ast.AssignStmt:
+						if x.Tok != token.DEFINE {
+							lhs = x.Lhs
+						}
+					case *ast.IncDecStmt:
+						lhs = []ast.Expr{x.X}
+					}
+					for _, l := range lhs {
+						if r := root(l); r != "" && pkgVars[r] && !local[r] {
+							nondet = append(nondet, fmt.Sprintf("%s:%d: function %s writes package-level variable %s", filepath.Base(fset.Position(l.Pos()).Filename), fset.Position(l.Pos()).Line, fd.Name.Name, r))
+						}
+					}
+					return true
+				})
+			}
+		}
+	}
 	facts["compiler.nondetSites"] = nondet
 	fmt.Fprintf(&out, "def nondetSites : Nat := %d\n", len(nondet))
 
